@@ -251,8 +251,10 @@ impl Runner for PacketRunner {
 // ---------------------------------------------------------------------------------------------
 // generator
 
-fn gen_kind(rng: &mut Rng, stats: &mut Stats) -> (String, usize) {
-    match rng.below(3) {
+/// `recur`: Some((k, seq)) forces a handshake whose record is signed by fixed key number `k` under
+/// sequence number `seq` (with content of its own each time).
+fn gen_kind(rng: &mut Rng, stats: &mut Stats, recur: Option<(u64, u64)>) -> (String, usize) {
+    match if recur.is_some() { 2 } else { rng.below(3) } {
         0 => (format!("m:{}", hx(&rng.bytes(32))), 32),
         1 => {
             let seq = match rng.below(4) {
@@ -273,8 +275,17 @@ fn gen_kind(rng: &mut Rng, stats: &mut Stats) -> (String, usize) {
             };
             let sig = pick(rng);
             let eph = pick(rng);
-            let rec = if rng.chance(1, 2) {
-                let (_, e) = random_enr(rng);
+            let rec = if recur.is_some() || rng.chance(1, 2) {
+                // (the same identity presents different records of one sequence number - a node
+                // restarted with a fresh record does: fixed key, fixed sequence number, content of its own)
+                let e = if let Some((k, seq)) = recur {
+                    stats.bump("gen.handshake.record-of-a-recurring-identity");
+                    let key = harness::util::key_from(&mut Rng::new(0x5eed_0000 + k));
+                    let ip4 = Some((std::net::Ipv4Addr::from(rng.next() as u32), rng.range(1, 65535) as u16));
+                    harness::util::make_enr(&key, seq, ip4, None, rng.below(40) as usize)
+                } else {
+                    random_enr(rng).1
+                };
                 stats.bump("gen.handshake.with-record");
                 Some(alloy_rlp::encode(&e))
             } else {
@@ -356,10 +367,13 @@ pub fn gen_case(rng: &mut Rng, _tier: &str, _profile: &str, stats: &mut Stats) -
     let mut ops = Vec::new();
     let dst = rng.bytes(32);
     // 1. structured encodes at boundary sizes
+    // (one case in eight: its packets are handshakes of one identity, each with another record of the
+    // same sequence number)
+    let recur = if rng.chance(1, 8) { Some((rng.below(3), 1 + rng.below(2))) } else { None };
     for _ in 0..3 {
         let iv = gen_iv(rng);
         let nonce = rng.bytes(12);
-        let (mut kind, authlen) = gen_kind(rng, stats);
+        let (mut kind, authlen) = gen_kind(rng, stats, recur);
         // (now and then the packet names the destination itself as its source: the codec has no opinion
         // on who talks to whom)
         if !kind.starts_with("w:") && rng.chance(1, 6) {
@@ -392,7 +406,7 @@ pub fn gen_case(rng: &mut Rng, _tier: &str, _profile: &str, stats: &mut Stats) -
     // 2. decodes: hand-built unmasked headers with mutated fields
     for _ in 0..4 {
         let iv = gen_iv(rng);
-        let (kind, _) = gen_kind(rng, stats);
+        let (kind, _) = gen_kind(rng, stats, None);
         let auth: Vec<u8> = {
             let f: Vec<&str> = kind.split(':').collect();
             match f[0] {
